@@ -117,7 +117,8 @@ UNARY_FN = ["abs", "sin", "cos", "tan", "exp", "log", "sqrt", "sinh", "cosh", "t
 
 
 def gen_obj(eng, gm, operands):
-    g = VObj(eng.module_global(gm, "Generator"), {"src": VDict(), "function_mode": (True, False), "for_loops": VList([])})
+    from .gen_common import new_generator
+    g = new_generator(eng, gm, {"src": VDict(), "function_mode": (True, False), "for_loops": VList([])})
     terms = {}
 
     def get_mx(eng, args, kw):
@@ -384,8 +385,9 @@ def _loop_fixture(eng, gm, cas, A, nk, nfree, statement_form):
     nodes = VDict([(klass, VDict([("x%d" % j, origs[j]) for j in range(nk)]))])
     model = VObj(VClass("Model"), {"delay_states": VList([]), "delay_arguments": VList([]), "inputs": VList([])})
     mode = "inline" if eng.choice(2) else "serial"
-    g = VObj(eng.module_global(gm, "Generator"), {"src": VDict(), "for_loops": VList([loop]), "model": model, "nodes": nodes,
-                                                   "entered_classes": VList([klass]), "map_mode": mode, "function_mode": (True, False)})
+    from .gen_common import new_generator
+    g = new_generator(eng, gm, {"src": VDict(), "for_loops": VList([loop]), "model": model, "nodes": nodes,
+                                "entered_classes": VList([klass]), "map_mode": mode, "function_mode": (True, False)})
     return dict(n=n, idx=idx, ks=ks, frees=frees, origs=origs, transposes=transposes, index_terms=index_terms, vals=vals, g=g, mode=mode, loop=loop)
 
 
@@ -778,7 +780,8 @@ def h_derivative_of_expression(eng):
         ders.setdefault(id(d), MXT("der:" + getattr(d, "nm", "?")))
         return ders[id(d)]
     eng.call_contracts["Generator.get_derivative"] = rec
-    g = VObj(eng.module_global(gm, "Generator"), {"src": VDict(), "for_loops": VList([]), "derivative": VDict(), "nodes": VDict()})
+    from .gen_common import new_generator
+    g = new_generator(eng, gm, {"src": VDict(), "for_loops": VList([]), "derivative": VDict(), "nodes": VDict()})
     expr = DExpr("expression")
     r = eng.call(VBound(f, g), [expr], {})
     eng.cover("derexpr.done")
